@@ -165,6 +165,54 @@ func runC05(ctx *h.Ctx) int {
 		}
 		c05Eval(k, prog, pr.Src, g.Cands(), ctx.N(6, 16))
 	})
+	// names that imitate generated sub-labels are outside what most properties promise anything about - but whether
+	// such a file compiles (and what the error is) must still not depend on -optimize
+	ctx.RunCases("imitating-labels", ctx.N(1500, 60000), func(k *h.Case) {
+		p := prof
+		p.WPory = 0
+		g := spec.NewGen(k.R, p)
+		prog := g.FullProgram(1 + k.R.IntN(3))
+		scs := scriptsOf(prog)
+		if len(scs) == 0 {
+			return
+		}
+		sc := scs[k.R.IntN(len(scs))]
+		name := fmt.Sprintf("%s_%d", sc.Entry, k.R.IntN(9))
+		blocks := collectBlocks(prog)
+		var cands []blockCtx
+		for _, bc := range blocks {
+			if bc.script == sc.Entry && !bc.single {
+				cands = append(cands, bc)
+			}
+		}
+		if len(cands) == 0 {
+			return
+		}
+		bc := cands[k.R.IntN(len(cands))]
+		insertStmt(bc.b, k.R.IntN(safeLen(bc.b)+1), &spec.Label{ID: prog.NewID(), Name: name})
+		src := spec.Source(prog)
+		k.SetSource(src)
+		ro, rn := h.Compile(src, optsOf(prog, true)), h.Compile(src, optsOf(prog, false))
+		k.Count("evaluations", 2)
+		if ro.Panic != nil || rn.Panic != nil {
+			k.Violation("compiler-panic", fmt.Sprintf("panic: %v / %v", ro.Panic, rn.Panic), nil)
+			return
+		}
+		if ro.OK() != rn.OK() {
+			k.Violation("accept-differs", fmt.Sprintf("a label spelled like a generated sub-label (%s): optimize=true: %q, optimize=false: %q", name, ro.ErrString(), rn.ErrString()), nil)
+			return
+		}
+		if !ro.OK() && ro.ErrString() != rn.ErrString() {
+			k.Violation("error-differs", fmt.Sprintf("errors differ: optimize=true %q, optimize=false %q", ro.ErrString(), rn.ErrString()), nil)
+			return
+		}
+		if ro.OK() {
+			k.Count("imitating_label_accepted_in_both_modes", 1)
+		} else {
+			k.Count("imitating_label_rejected_in_both_modes", 1)
+		}
+		k.Nontrivial("imit", ro.OK(), len(src)/64)
+	})
 	rejectGuard(ctx, 0.35)
 	return ctx.Finish(
 		"whole files compiled twice (optimize on/off). Oracle: same acceptance/error; non-script parts identical; same user-visible labels with the same colon count; per script the multiset of instructions other than goto is identical; VM traces (tests, commands, terminal) from every script entry incl. inline map scripts equal under the same states; in either output no generated goto is followed by its own target label and every generated sub-label is referenced. distinct = distinct script body signature",
